@@ -196,7 +196,14 @@ func (r *renderer) body(cmds []string) {
 // documentation / property statement promise are produced: indentation, blank lines, LF or
 // CRLF, spacing around punctuation, trailing commas, bare or parenthesised single outputs,
 // one-line or multi-line bodies. stmts must be Normalized.
-func Render(ch Chooser, stmts []Stmt) string {
+func Render(ch Chooser, stmts []Stmt) string { return render(ch, stmts, false) }
+
+// RenderJoined is Render for the input-level properties (which quantify over whatever parses, not
+// over the documented layouts): now and then the next statement starts on the line the previous one
+// ended on.
+func RenderJoined(ch Chooser, stmts []Stmt) string { return render(ch, stmts, true) }
+
+func render(ch Chooser, stmts []Stmt, join bool) string {
 	r := &renderer{ch: ch}
 	if ch.Small() {
 		r.nlMode = ch.Choose("nlmode", 2) // LF or CRLF; mixed line ends are left to the random layouts
@@ -264,6 +271,8 @@ func Render(ch Chooser, stmts []Stmt) string {
 				r.nl()
 				r.blank("endblank")
 			}
+		} else if join && s.Kind != "comment" && ch.Choose("joinline", 3) == 0 {
+			r.b.WriteString(" ") // (a comment runs to the end of its line, nothing can follow it there)
 		} else {
 			r.nl()
 			// a docstring must stay attached to its task, any other pair may be separated
